@@ -9,6 +9,7 @@ CONSTANTS
   ParamSeq <- ParamsSmall
   DeclSeq <- DeclsFull
   MaxParams = 1
+  MinSize = 0
   Bug = "none"
 INVARIANT SolutionSatisfiesBounds
 INVARIANT UnsatIsDiagnosed
